@@ -655,14 +655,28 @@ struct Run
          fs::OpReport  rep;
          std::string   what;
          bool          threw = false;
-         if (!restart( {}, rep, what, threw)) return;
-         if (threw)
+         if (!restart( faultsOf( plan.get( "start")), rep, what, threw)) return;
+         countFault( rep);
+         if (rep.crashed)
+         {
+            crashProbes( rep);
+            if (!recover( "first open")) return;
+         } else if (threw && errorFaultFired( rep))
+         {
+            // the directory could not be created: nothing is open, messages
+            // written now are lost until the next clean restart
+            st.probe( P_exception_under_fault);
+            st.probe( P_degraded_window);
+            degraded = true;
+         } else if (threw)
          {
             res.fail( "VIOLATION", "L1-open", "opening the log file on an empty disk failed: " + what);
             return;
+         } else
+         {
+            if (!precreate && rep.calls[ fs::ccMkdir] > 0) st.probe( P_directory_created_by_policy);
+            checkTransition( Files(), snapshot(), nullptr, "first open");
          }
-         if (!precreate && rep.calls[ fs::ccMkdir] > 0) st.probe( P_directory_created_by_policy);
-         checkTransition( Files(), snapshot(), nullptr, "first open");
       }
 
       const Json&  ops = plan.get( "ops");
@@ -951,6 +965,18 @@ public:
          ops.push( op);
       }
       plan[ "ops"] = ops;
+      // the very first open can be hit as well (directory creation)
+      if (mode >= 8 && nm.geti( "precreate", 1) == 0 && fl.chance( 1, 3))
+      {
+         Json  st0 = Json::object();
+         Json  f = Json::object();
+         f[ "kind"] = fl.chance( 1, 2) ? "mkdir_fail" : "crash";
+         f[ "at"] = fl.chance( 1, 2) ? "mkdir" : "any";
+         f[ "n"] = static_cast< long long>( 0);
+         f[ "bytes"] = static_cast< long long>( 0);
+         st0[ "fault"] = f;
+         plan[ "start"] = st0;
+      }
       return plan;
    }
 
